@@ -87,6 +87,10 @@ def run(ctx):
     r153(ctx)
     r154_inverse_pairs(ctx, dists)
     r155_density_is_derivative(ctx, dists)
+    # a sampler that leaves the declared support cannot follow the declared density: the range part of C14 (draws within the
+    # sign / bound support, discrete uniform within [lo, hi]) is a necessary condition of "samples follow the density"
+    from . import c14
+    c14.r141(ctx, c14.concrete_dists(prog))
 
 
 def r152(ctx, dists):
